@@ -84,7 +84,10 @@ const (
 	ObjPlain  = iota // attribute class=plain
 	ObjSecret        // attribute class=secret (denied to Others by the stored table of CnrEACL)
 	numObjects
-	ObjAbsent = numObjects // an ID that is not stored
+	ObjAbsent       = numObjects     // an ID that is stored nowhere
+	ObjRemotePlain  = numObjects + 1 // stored only on the other container node, class=plain
+	ObjRemoteSecret = numObjects + 2 // stored only on the other container node, class=secret
+	numObjIndexes   = numObjects + 3
 )
 
 // X-header that triggers the request-time DENY record of CnrEACL.
@@ -102,7 +105,8 @@ type Cnr struct {
 	Cnr     container.Container
 	HasEACL bool
 	EACL    eacl.Table
-	Objects [numObjects]object.Object
+	Objects [numObjects]object.Object // stored in the local engine
+	Remote  [numObjects]object.Object // stored on the fake remote node only (plain, secret)
 	Absent  oid.ID
 }
 
@@ -187,6 +191,16 @@ func newUniverse() *Universe {
 				panic(err)
 			}
 			c.Objects[oi] = *obj
+
+			robj := object.New(c.ID, owner.ID)
+			robj.SetAttributes(object.NewAttribute(ClassAttr, class), object.NewAttribute("n", fmt.Sprint(100+ci*10+oi)))
+			robj.SetCreationEpoch(Epoch - 1)
+			robj.SetPayload(detPayload(fmt.Sprintf("remote/%s/%d", c.Name, oi), size+500))
+			robj.SetPayloadSize(uint64(size + 500))
+			if err := robj.SetVerificationFields(owner.UserSigner()); err != nil {
+				panic(err)
+			}
+			c.Remote[oi] = *robj
 		}
 		c.Absent = oid.ID(sha256.Sum256([]byte("verif-absent:" + c.Name)))
 	}
@@ -205,15 +219,21 @@ func detPayload(seed string, n int) []byte {
 
 // ObjectID returns the ID addressed by object index oi of container ci.
 func (u *Universe) ObjectID(ci, oi int) oid.ID {
-	if oi >= numObjects {
-		return u.Cnrs[ci].Absent
+	switch {
+	case oi < numObjects:
+		return u.Cnrs[ci].Objects[oi].GetID()
+	case oi == ObjRemotePlain:
+		return u.Cnrs[ci].Remote[ObjPlain].GetID()
+	case oi == ObjRemoteSecret:
+		return u.Cnrs[ci].Remote[ObjSecret].GetID()
 	}
-	return u.Cnrs[ci].Objects[oi].GetID()
+	return u.Cnrs[ci].Absent
 }
 
 // NumContainers, NumObjects, NumRequesters expose the universe dimensions to generators.
 const (
 	NumContainers = numContainers
 	NumObjects    = numObjects
+	NumObjIndexes = numObjIndexes
 	NumRequesters = numRequesters
 )
